@@ -275,7 +275,29 @@ impl Property for C11 {
             Tier::Thorough => 40_000_000,
         }
     }
-    fn generate(&self, seed: u64, run: u64, _tier: Tier, _avoid: &BTreeSet<String>) -> MacCase {
+    fn generate(&self, seed: u64, run: u64, tier: Tier, avoid: &BTreeSet<String>) -> MacCase {
+        // one run in five borrows another property"s generator (same case type), so that this oracle also
+        // judges histories of shapes its own generator does not produce
+        if let Some(c) = super::cross_generate("C11", &["C04", "C07", "C09", "C10"], seed, run, tier, avoid) {
+            return c;
+        }
+        self.own_generate(seed, run, tier, avoid)
+    }
+    fn execute(&self, case: &MacCase, want_trace: bool) -> Outcome {
+        let mut mon = Mon;
+        let out = run_case(case, &mut mon, want_trace);
+        Outcome { violation: out.violation, stats: out.stats, trace: out.trace }
+    }
+    fn self_test(&self) -> Result<(), String> {
+        crate::self_test_refs()
+    }
+    fn expected_probes(&self, _tier: Tier) -> Vec<&'static str> {
+        vec!["probe.join-success-checked", "probe.no-accept-checked", "probe.invalid-offset-ignored", "probe.invalid-rx2dr-ignored", "probe.cflist-channel-applied", "probe.cflist-mask-applied", "probe.rfu-cflist-ignored", "probe.classc-frame-during-join"]
+    }
+}
+
+impl C11 {
+    pub fn own_generate(&self, seed: u64, run: u64, _tier: Tier, _avoid: &BTreeSet<String>) -> MacCase {
         let mut r = Rng::new(run_seed(seed, "C11", run));
         let mut cfg = gen_cfg(&mut r, &CfgProfile { frontends: ALL_FRONTENDS, otaa_pct: 100, boundary_counters_pct: 0, join_bias_pct: 40 });
         cfg.otaa = true;
@@ -302,16 +324,5 @@ impl Property for C11 {
             ops.insert(0, Op::Join(t));
         }
         MacCase { cfg, ops, knob: 0 }
-    }
-    fn execute(&self, case: &MacCase, want_trace: bool) -> Outcome {
-        let mut mon = Mon;
-        let out = run_case(case, &mut mon, want_trace);
-        Outcome { violation: out.violation, stats: out.stats, trace: out.trace }
-    }
-    fn self_test(&self) -> Result<(), String> {
-        crate::self_test_refs()
-    }
-    fn expected_probes(&self, _tier: Tier) -> Vec<&'static str> {
-        vec!["probe.join-success-checked", "probe.no-accept-checked", "probe.invalid-offset-ignored", "probe.invalid-rx2dr-ignored", "probe.cflist-channel-applied", "probe.cflist-mask-applied", "probe.rfu-cflist-ignored", "probe.classc-frame-during-join"]
     }
 }
